@@ -60,9 +60,25 @@ func init() {
 					less := mc.Fn.(*ssa.Function)
 					okLess := false
 					detail := ""
+					// captured variables are rendered by what they hold (a local alias of the list is the list)
+					env := map[ssa.Value]string{}
+					for k, fv := range less.FreeVars {
+						if k >= len(mc.Bindings) {
+							break
+						}
+						switch bv := mc.Bindings[k].(type) {
+						case *ssa.Alloc:
+							if sv := allocSingleStore(bv); sv != nil {
+								env[fv] = "&" + accessPath(sv)
+							}
+						default:
+							env[fv] = accessPath(bv)
+						}
+					}
 					if rs := returnsOf(less); len(rs) == 1 && len(less.Params) == 2 {
 						if b, ok := rs[0].Results[0].(*ssa.BinOp); ok {
-							cc := canonCond(b, true)
+							cc := ""
+							withPathEnv(env, func() { cc = canonCond(b, true) })
 							i, j := accessPath(less.Params[0]), accessPath(less.Params[1])
 							detail = cc
 							parts := strings.Split(cc, " < ")
@@ -308,9 +324,14 @@ func init() {
 				if len(r.Results) != 2 || isNilConst(r.Results[0]) || !isNilConst(r.Results[1]) {
 					continue
 				}
-				for _, ft := range condFacts(r.Block()) {
+				facts := condFacts(r.Block())
+				// `if r == nil || r.Status() != Blocked { return e, nil }`: the fact sits on one of the incoming edges
+				for _, p := range r.Block().Preds {
+					facts = append(facts, edgeFact(p, r.Block())...)
+				}
+				for _, ft := range facts {
 					b, ok := ft.Cond.(*ssa.BinOp)
-					if !ok || b.Op != token.EQL || !ft.Truth {
+					if !ok || !((b.Op == token.EQL && ft.Truth) || (b.Op == token.NEQ && !ft.Truth)) {
 						continue
 					}
 					var other ssa.Value
